@@ -136,4 +136,45 @@ theorem matchFields_single (u : Uni) (k : Key) (D : List Str) (c : Int) :
     matchFields u k (D ++ [[c]]) = «matches» u k c (parseMods u D) := by
   simp [matchFields]
 
+theorem splitOn_sep (sep : Int) : ∀ p, splitOn sep (p ++ [sep]) = splitOn sep p ++ [[]]
+  | [] => by simp [splitOn]
+  | c :: rest => by
+    have ih := splitOn_sep sep rest
+    have hne := splitOn_ne_nil sep rest
+    by_cases hc : c = sep
+    · simp only [List.cons_append, splitOn, hc, if_true, ih, List.cons_append]
+    · simp only [List.cons_append, splitOn, hc, if_false, ih]
+      cases hS : splitOn sep rest with
+      | nil => exact absurd hS hne
+      | cons a t => simp
+
+theorem matchFields_plus (u : Uni) (k : Key) (D : List Str) (hD : D ≠ []) :
+    matchFields u k (D ++ [[], []]) = «matches» u k 43 (parseMods u D) := by
+  have h1 : (D ++ [[], []]).dropLast = D ++ [[]] := by
+    have : D ++ [[], []] = (D ++ [[]]) ++ [([] : Str)] := by simp
+    rw [this, List.dropLast_concat]
+  have h2 : (D ++ [[], []]).getLastD [] = ([] : Str) := by
+    have : D ++ [[], []] = (D ++ [[]]) ++ [([] : Str)] := by simp
+    rw [this, List.getLastD_concat]
+  have h3 : (D ++ [([] : Str)]).getLastD [0] = ([] : Str) := List.getLastD_concat ..
+  have h4 : (D ++ [[], []]).length > 2 := by
+    cases D with
+    | nil => exact absurd rfl hD
+    | cons a t => simp
+  have h5 : (D ++ [([] : Str)]).dropLast = D := List.dropLast_concat
+  unfold matchFields
+  simp only [h1, h2, h3, h4, h5, and_self, decide_true, if_true]
+
+theorem dropLast_concat_of_last : ∀ S : List Str, S ≠ [] → S.getLastD [] = [] → S = S.dropLast ++ [[]]
+  | [], h, _ => absurd rfl h
+  | [x], _, h => by simp [List.getLastD] at h; simp [h]
+  | x :: y :: t, _, h => by
+    have ih := dropLast_concat_of_last (y :: t) (by simp) (by simpa [List.getLastD] using h)
+    simp only [List.dropLast_cons_cons, List.cons_append]
+    rw [← ih]
+
+theorem named_of_any {kc : Int} (h : (keyNames.any fun e => e.1 == kc) = true) : ∃ e ∈ keyNames, e.1 = kc := by
+  obtain ⟨e, he, h⟩ := List.any_eq_true.mp h
+  exact ⟨e, he, by simpa using h⟩
+
 end VaxisModel.Lemmas.KeySelf
